@@ -433,7 +433,11 @@ func runCheck(ctx *Ctx, ck *Check, auditPath, factsStatus, evidencePath string) 
 				continue
 			}
 			derivedCompared++
-			derivedKinds[strings.SplitN(d.Line, " ", 2)[0]+" impl="+strings.SplitN(d.Impl, " ", 2)[0]]++
+			kind, ik := strings.SplitN(d.Line, " ", 2)[0], strings.SplitN(d.Impl, " ", 2)[0]
+			if kind == "sha" {
+				kind, ik = "cmd.hash-object", "ok"
+			}
+			derivedKinds[kind+" impl="+ik]++
 			okk := mo[i][0] == d.Impl
 			detail := ""
 			if d.Verify != nil {
